@@ -59,6 +59,10 @@ func b64OkTerm(e *base64.Encoding, s *Term) *Term {
 
 // b64EncodeAxioms constrains r = enc(x).
 func b64EncodeAxioms(m *Machine, e *base64.Encoding, n string, x, r *Term) {
+	// encodings of digests / MACs are non-empty: say so literally, so that `part == ""` tests need no query
+	if x.Op == "uf" && len(x.S) > 7 && (x.S[:7] == "u_hmac_" || x.S[:7] == "u_hash_") {
+		m.assume(mkNot(mkEq(r, mkStr(""))))
+	}
 	if b64IsRaw(e) {
 		lr3 := mkMul(mkLen(r), mkInt(3))
 		lx4 := mkMul(mkLen(x), mkInt(4))
@@ -141,9 +145,8 @@ func (m *Machine) noteMAC(hname string, key, data, out *Term, ufName string) {
 			m.assume(mkEq(mkUF(ufName, SStr, a.key, a.data), a.out))
 		}
 		m.assume(mkImplies(mkEq(a.out, out), mkAnd(mkEq(a.key, key), mkEq(a.data, data))))
-		if !(a.key.IsConst() && key.IsConst() && a.key.S != key.S) {
-			m.b64DecEqAxiom(a.data, data)
-		}
+		// (b64DecEqAxiom is not emitted here: its substr terms cost seconds per query; harnesses that
+		// relate two decodings state the needed disequality themselves)
 	}
 	m.ghost[gk] = append(m.ghost[gk], macApp{key, data, out})
 	m.note("A-mac: for each hash function the MAC is injective in (key, message) on the applications of one path (collision resistance)")
@@ -153,6 +156,19 @@ func (m *Machine) noteMAC(hname string, key, data, out *Term, ufName string) {
 // syntactically (A-mac injectivity): different constant keys never collide, equal keys reduce
 // the question to the messages.
 func macEqSimplify(x, y *Term) (*Term, bool) {
+	if !x.IsConst() && !y.IsConst() && x.String() > y.String() {
+		x, y = y, x // canonical argument order, so that repeated comparisons render identically
+	}
+	if r, ok := macEqSimplify1(x, y); ok {
+		return r, true
+	}
+	if !x.IsConst() && !y.IsConst() {
+		return mkEq(x, y), true
+	}
+	return nil, false
+}
+
+func macEqSimplify1(x, y *Term) (*Term, bool) {
 	if x.Op != "uf" || y.Op != "uf" || x.S != y.S || len(x.Args) != 2 || len(y.Args) != 2 {
 		return nil, false
 	}
@@ -164,10 +180,17 @@ func macEqSimplify(x, y *Term) (*Term, bool) {
 		if kx.S != ky.S {
 			return mkBool(false), true
 		}
-		return mkEq(x.Args[1], y.Args[1]), true
+		return eqCanon(x.Args[1], y.Args[1]), true
 	}
 	if sameTerm(kx, ky) {
-		return mkEq(x.Args[1], y.Args[1]), true
+		return eqCanon(x.Args[1], y.Args[1]), true
 	}
 	return nil, false
+}
+
+func eqCanon(x, y *Term) *Term {
+	if !x.IsConst() && !y.IsConst() && x.String() > y.String() {
+		x, y = y, x
+	}
+	return mkEq(x, y)
 }
